@@ -106,6 +106,20 @@ def run(ctx):
         ctx.violation("identity", "C15 fails on the real tool: %s\n" % b)
     if not okp and not ctx.violations:
         ctx.violation("proof", "a proof obligation of props/C15.v no longer checks:\n" + common.coq_error_excerpt(log), found_input=False)
+    # regression modules of repaired findings: call sites of a chain / of a selector / annotated call sites keep one identity each
+    from . import markers as _mk
+    _mk.corpus_modules(ctx, "c15r", "identity of call sites: chains, selector and parenthesised callees, call-site annotations")
+    # known finding F111: call-site identities use //line-adjusted locations
+    kf = []
+    nk, bk = _mk.check_markers(os.path.join(common.VERIF, "corpus", "c15kf", "linedir"), known=kf)
+    ctx.obligation("corpus/c15kf/linedir: the other %d marked uses behave as marked (two calls on different template lines are distinct sites)" % (nk - 1), nk > 1 and not bk)
+    for b in bk[:2]:
+        ctx.violation("corpus-c15kf", "C15 fails on the real tool: %s\nreplay: bin/harness analyze -dir corpus/c15kf/linedir\n" % b)
+    if kf:
+        if any(k["id"] == "F111" for k in ctx.known_for()):
+            ctx.known_finding("F111", "two calls of a contracted function that `//line` directives map to one template position share one call-site identity: the nil verdict of `id(nil)` is read back for `id(x)`, %s is reported (corpus/c15kf/linedir)" % ", ".join(x[1] for x in kf))
+        else:
+            ctx.violation("linedir", "C15 fails on the real tool: two call sites mapped to one //line position alias: %s reported\nreplay: bin/harness analyze -dir corpus/c15kf/linedir\n" % ", ".join(x[1] for x in kf))
     ctx.write_evidence()
 
 
